@@ -266,6 +266,32 @@ theorem document_accepted_iff (cs : CSt) (evs : List CEvent) (h0 : cs.st.err = n
       rw [crun_clean_iff, all_ok_iff]; exact ⟨h0, h1, h2, h3, h4⟩
     exact ⟨he, by rw [crun_clean_state evs cs he]; exact hs⟩
 
+/-! ### the automaton's own refusals are `struct`, whatever the data -/
+
+/-- a start tag for which `init()` installed no entry in the row of the current state (that includes every unknown element name):
+    verdict `struct`, whatever the attributes and the oracle bits -/
+theorem verdict_no_entry (cs : CSt) (t : Tag) (ae : Bool) (o : List Bool) (hclean : cs.st.err = none)
+    (h : lookup cs.st.state t = none) : verdict cs (.start t ae o) = .struct := by
+  have hs : stag cs.st.state t = .h_parser_error := by simp [stag, h]
+  unfold verdict
+  simp only [ccall, hs]
+  by_cases ht : t = .t_unknown <;> simp [cStartProg, cexec, tagCall, ht, St.error, hclean]
+
+/-- text that is not blank in a state whose character-data handler is `white_spaces` (between elements): verdict `struct` -/
+theorem verdict_text_between (cs : CSt) (x : List Char) (o : List Bool) (hclean : cs.st.err = none)
+    (h : dataH cs.st.state = .h_white_spaces) (hx : isBlank x = false) : verdict cs (.text x o) = .struct := by
+  unfold verdict
+  simp [ccall, h, cDataProg, cexec, hx, St.error, hclean]
+
+/-- … and blank text there, or any text in a state that pools it (`add_text`), is `ok` -/
+theorem verdict_text_ok (cs : CSt) (x : List Char) (o : List Bool) (hclean : cs.st.err = none)
+    (h : (dataH cs.st.state = .h_white_spaces ∧ isBlank x = true) ∨ dataH cs.st.state = .h_add_text) :
+    verdict cs (.text x o) = .ok := by
+  unfold verdict
+  rcases h with ⟨h, hx⟩ | h
+  · simp [ccall, h, cDataProg, cexec, hx, hclean]
+  · simp [ccall, h, cDataProg, cexec, hclean]
+
 /-! ### what the verdict of a field element says -/
 
 /-- the end event of an element read by ONE `pure_data` test (`isField`), in a situation without recorded error:
